@@ -113,12 +113,12 @@ def gen_str(rng, prof):
 
 def gen_bytes(rng):
     r = rng.random()
-    if r < 0.2:
+    if r < 0.15:
         return b""
-    if r < 0.8:
+    if r < 0.6:
         return bytes(rng.randrange(256) for _ in range(rng.randint(1, 24)))
     if r < 0.9:
-        return bytes([rng.choice([0, 0x80, 0xff])]) * rng.choice([255, 256, 65536])
+        return bytes([rng.choice([0, 0x80, 0xff])]) * rng.choice([255, 256, 65535, 65536, 65537, 2**20 + 1])
     import pickle
     return pickle.dumps(("payload", rng.randrange(1000)))   # bytes that are themselves a pickle
 
